@@ -101,7 +101,7 @@ Lemma ps_record_J ptr isz st last b st' last' : ps_J st ->
 Proof.
   intros J. unfold ps_record.
   destruct (parse_dr b) as [r|]; [|discriminate].
-  destruct (ps_outside (sysuse r)); [discriminate|].
+  destruct (ps_outside (sysuse r) (znth 32 b)); [discriminate|].
   destruct (ps_is_dir r) eqn:Hd.
   - (* no inode *)
     cbv beta iota zeta.
